@@ -34,8 +34,22 @@ NODE_MENUS = (
     ("HNode", "HMix", "HSym", "HSymMix"),
     ("HNodeEq",),
     ("HNodeEq", "HNode"),
+    ("HNodeBag",),
+    ("HNodeBag", "HNode"),
+    ("HNodeNo",),
+    ("HNodeNo", "HNodeBag"),
 )
-LIGHT_MENUS = (("HLight",), ("HLightDict",), ("HLight", "HLightDict"), ("HLightEq",), ("HLightEq", "HLight"))
+LIGHT_MENUS = (
+    ("HLight",),
+    ("HLightDict",),
+    ("HLight", "HLightDict"),
+    ("HLightEq",),
+    ("HLightEq", "HLight"),
+    ("HLightBag",),
+    ("HLightBag", "HLightSub"),
+    ("HLightNo",),
+    ("HLightNo", "HLight"),
+)
 EXC_ALL = ("SimFault", "SimRuntime", "SimCancel")
 EXC_EXCEPTION = ("SimFault", "SimRuntime")
 STRUCT_OPS = ("parent", "children", "del", "new")
@@ -155,6 +169,10 @@ def gen_cfg(rng, prop, tier):
         cfg["excs"] = list(EXC_EXCEPTION)
     else:
         cfg["profile"] = "none"
+    if prop in ("C01", "C02", "C03", "C20") and rng.random() < 0.3:
+        cfg["observe_hooks"] = True  # hooks that look at the parent's children while the update is in flight
+    if prop in ("C01", "C02", "C04", "C16", "C18") and rng.random() < 0.3:
+        cfg["hook_reads"] = rng.sample(("size", "height", "path", "root", "children", "depth", "leaves", "siblings", "descendants"), rng.randint(1, 3))
     cfg["p_fault"] = rng.choice((0.2, 0.35, 0.5, 1.0)) if cfg["profile"] != "none" else 0.0
     cfg["persist_run"] = cfg["profile"] == "persist" and rng.random() < 0.4
     if cfg["persist_run"]:
@@ -286,7 +304,7 @@ def gen_op(rng, model, cfg, step):
             op["c"] = wchoice(rng, (("list", 5), ("tuple", 2), ("gen", 2)))
         elif r < 0.55:
             op["xs"] = {"noniter": rng.choice(("int", "none", "zero"))}
-        if cls in ("HNode", "HNodeEq", "HAny", "HMix", "HSym") and rng.random() < 0.3:
+        if cls in ("HNode", "HNodeEq", "HNodeBag", "HNodeNo", "HAny", "HMix", "HSym") and rng.random() < 0.3:
             op["attrs"] = {"foo": step}
     prof = cfg["profile"]
     if cfg.get("persist_run"):
@@ -580,6 +598,7 @@ def c16_check(pre, post, log, fired, exp, status, observe):
 
 def build_world(cfg, world=None):
     world = world or World(observe_hooks=cfg.get("observe_hooks", False))
+    world.hook_reads = tuple(cfg.get("hook_reads") or ())
     model = ForestModel()
     for i, cls in enumerate(cfg["classes"]):
         t = cfg["targets"][i]
@@ -1015,3 +1034,5 @@ def simplify_cfg(cfg, ops):
         yield dict(cfg, obs=1), ops
     if cfg.get("observe_hooks"):
         yield dict(cfg, observe_hooks=False), ops
+    if cfg.get("hook_reads"):
+        yield dict(cfg, hook_reads=None), ops
